@@ -375,7 +375,7 @@ int main(int argc, char** argv) {
     subs.push_back(s);
   }
   {
-    Sub s; s.name = "c09.random"; s.property = "C09"; s.instances = N_OPS * 3; s.n_quick = 300; s.n_thorough = 20000; s.gen = gen_c09_random; s.run = c09_random;
+    Sub s; s.name = "c09.random"; s.property = "C09"; s.instances = N_OPS * 3; s.n_quick = 1500; s.n_thorough = 40000; s.gen = gen_c09_random; s.run = c09_random;
     s.instance_name = [](int inst) { return std::string(kOps[inst % N_OPS].name) + "/" + ntinfo(inst / N_OPS).name; };
     s.rule = "every operation x 3 numeric types on random integer components in [-64,64] (bit-exact) and real components over +-40 binades with unrelated mantissas (4 ulp of the sum of |terms|; determinant 6; magnitude 3); inverse: "
              "integer tensors incl. exactly singular ones (presence) and diagonally dominant real tensors (A * A^-1 = I within 16 cond(A) eps); non-trivial: all components distinct and non-zero";
@@ -383,7 +383,7 @@ int main(int argc, char** argv) {
   }
   {
     const int ne = (int)(sizeof(kEmb) / sizeof(kEmb[0]));
-    Sub s; s.name = "c09.embedding"; s.property = "C09"; s.instances = ne * 3; s.n_quick = 200; s.n_thorough = 10000; s.run = c09_embed;
+    Sub s; s.name = "c09.embedding"; s.property = "C09"; s.instances = ne * 3; s.n_quick = 1500; s.n_thorough = 30000; s.run = c09_embed;
     s.gen = [ne](int inst) { const int e = inst % ne, nt = inst / ne; const Op& o = kOps[kEmb[e].op_small]; const int n = o.na + o.nb;
       return rc::gen::mapcat(irange(0, 1), [=](int integer) {
         auto g = integer ? rc::gen::container<std::vector<LD>>((size_t)n, rc::gen::map(irange(-64, 64), [](int x) { return (LD)x; })) : gen_reals(n, nt, -8, 8, kNeg);
@@ -393,7 +393,7 @@ int main(int argc, char** argv) {
     subs.push_back(s);
   }
   {
-    Sub s; s.name = "c14.math"; s.property = "C14"; s.instances = 12; s.n_quick = 3000; s.n_thorough = 100000; s.run = c14_math;
+    Sub s; s.name = "c14.math"; s.property = "C14"; s.instances = 12; s.n_quick = 10000; s.n_thorough = 200000; s.run = c14_math;
     s.gen = [](int inst) { static const int shapes[4] = {2, 3, 6, 9}; const int shape = shapes[inst % 4], nt = inst / 4;
       const LD mx = std::ldexp((LD)2 - eps_of(nt), ntinfo(nt).emax), mn = std::ldexp((LD)1, ntinfo(nt).emin), inf = std::numeric_limits<LD>::infinity();
       auto val = rc::gen::oneOf(rc::gen::element<LD>(-inf, -mx, -1, -mn, -(LD)0, (LD)0, mn, 1, mx, inf), gen_real(nt, -4, 4, kNeg | kZero));
@@ -403,7 +403,7 @@ int main(int argc, char** argv) {
     subs.push_back(s);
   }
   {
-    Sub s; s.name = "c16.math"; s.property = "C16"; s.instances = 6 * 4 * 2; s.n_quick = 500; s.n_thorough = 20000; s.run = c16_math;
+    Sub s; s.name = "c16.math"; s.property = "C16"; s.instances = 6 * 4 * 2; s.n_quick = 2000; s.n_thorough = 40000; s.run = c16_math;
     s.gen = [](int inst) { static const int shapes[4] = {2, 3, 6, 9}; static const int from[6] = {0, 0, 1, 1, 2, 2}, to[6] = {1, 2, 0, 2, 0, 1};
       const int shape = shapes[inst % 4], via = (inst / 4) % 2, pair = inst / 8; const int nt = from[pair], t2 = to[pair]; const int narrow = ntinfo(nt).mant < ntinfo(t2).mant ? nt : t2; const int lim = narrow == 0 ? 100 : narrow == 1 ? 900 : 12000;
       return rc::gen::map(gen_reals(shape, nt, -lim, lim, kNeg | kZero), [=](const std::vector<LD>& v) { Case c; c.i = {nt, t2, shape, via}; c.r = v; return c; }); };
